@@ -479,7 +479,7 @@ func (c *Ctx) c12TOTPReplay() {
 	}
 	vn := FuncName(v)
 	// in validate: totp.Validate dominated by (not UserOneTime) or (last != input)
-	vals := CallsTo(v, fnTOTPValidate)
+	vals := CallsTo(v, fnTOTPValidate, fnTOTPValidateCustom)
 	if len(vals) == 0 {
 		r.Bad("C12.totp-replay", vn, "totp.Validate", "-", "validate never checks the code")
 		return
@@ -562,16 +562,16 @@ func (c *Ctx) c12TOTPReplay() {
 				except[p.Method] = "not a one-time secret (decided under C13)"
 			}
 		}
-		if !has && len(CallsTo(fn, fnTOTPValidate)) > 0 {
+		if !has && len(CallsTo(fn, fnTOTPValidate, fnTOTPValidateCustom)) > 0 {
 			// a code is validated here (enrolment is confirmed with one) and never
 			// recorded: the first login afterwards accepts the very same code
-			r.Bad("C12.totp-replay-save", FuncName(fn), "PutTOTPLastCode after totp.Validate", posf(c, CallsTo(fn, fnTOTPValidate)[0]), "a TOTP code is validated here but not recorded as the user's last code (for users with replay protection): the same code is accepted again by the next validation inside its time window")
+			r.Bad("C12.totp-replay-save", FuncName(fn), "PutTOTPLastCode after totp.Validate", posf(c, CallsTo(fn, fnTOTPValidate, fnTOTPValidateCustom)[0]), "a TOTP code is validated here but not recorded as the user's last code (for users with replay protection): the same code is accepted again by the next validation inside its time window")
 		}
 		if has {
 			c.mustSaveAfterPut("C12.totp-replay-save", fn, except)
 			// for a replay-protected user the code is recorded on every path from its
 			// validation to the save
-			for _, tv := range CallsTo(fn, fnTOTPValidate) {
+			for _, tv := range CallsTo(fn, fnTOTPValidate, fnTOTPValidateCustom) {
 				var okOT ssa.Value
 				for _, b := range fn.Blocks {
 					for _, in := range b.Instrs {
@@ -587,7 +587,7 @@ func (c *Ctx) c12TOTPReplay() {
 				if okOT == nil {
 					continue
 				}
-				q := PathQuery{From: tv.(ssa.Instruction), Assume: map[ssa.Value]bool{okOT: true, tv.Value(): true}, Cut: func(i ssa.Instruction) bool {
+				q := PathQuery{From: tv.(ssa.Instruction), Assume: map[ssa.Value]bool{okOT: true, ResultValue(tv, 0): true}, Cut: func(i ssa.Instruction) bool {
 					pc, ok := i.(ssa.CallInstruction)
 					return ok && pc.Common().IsInvoke() && pc.Common().Method.Name() == "PutTOTPLastCode"
 				}, Goal: IsCallTo(fnSave)}
@@ -604,7 +604,7 @@ func (c *Ctx) c12TOTPReplay() {
 					continue
 				}
 				okArg := false
-				for _, tv := range CallsTo(fn, fnTOTPValidate) {
+				for _, tv := range CallsTo(fn, fnTOTPValidate, fnTOTPValidateCustom) {
 					if Arg(tv, 0) == Arg(call, 0) {
 						okArg = true
 					}
